@@ -310,3 +310,26 @@ def run(model, col, tier):
     ld = model.cls(IR, "FilesystemModuleLoader").own_method("Load")
     pl = [c for c in ast.walk(ld) if isinstance(c, ast.Call) and dotted(c.func) == "pickle.load"]
     col.check(bool(pl) and all("'rb'" in unparse(c) for c in pl), "R16.6", f"{IR}::FilesystemModuleLoader.Load reads with pickle.load", "pickle.load(path.open('rb'))", "the loader does not read module files with pickle.load in binary mode", IR, ld)
+    # ---------------- R16.8 the module interface has one writer --------------------------------------
+    # what an importer sees of a module is Metadata[..]; it is written where the module is lowered and nowhere else
+    writers = []
+    for rel, fi in sorted(model.files.items()):
+        if not (rel.startswith("nsl/") or rel in ("nslc.py", "nslr.py")):
+            continue
+        for x in ast.walk(fi.tree):
+            tg = x.targets if isinstance(x, ast.Assign) else [x.target] if isinstance(x, ast.AugAssign) else []
+            for t in tg:
+                if isinstance(t, ast.Subscript) and isinstance(t.value, ast.Attribute) and t.value.attr == "Metadata":
+                    writers.append((rel, x))
+            if isinstance(x, ast.Delete):
+                for t in x.targets:
+                    if isinstance(t, ast.Subscript) and isinstance(t.value, ast.Attribute) and t.value.attr == "Metadata":
+                        writers.append((rel, x))
+            if isinstance(x, ast.Call) and isinstance(x.func, ast.Attribute) and isinstance(x.func.value, ast.Attribute) and x.func.value.attr == "Metadata" \
+                    and x.func.attr in ("pop", "clear", "update", "setdefault", "popitem"):
+                writers.append((rel, x))
+    col.floor("R16.8", "writers of Module.Metadata", len(writers), 2)
+    for rel, x in writers:
+        col.check(rel == "nsl/passes/LowerToIR.py", "R16.8", f"{rel}:: writes Module.Metadata only while lowering", "the interface of a module (functions, types) is what lowering recorded",
+                  f"`{' '.join(unparse(x).split())[:90]}` in {rel} changes the recorded interface after lowering: importers no longer see the functions / types the module defines "
+                  "(calls that work in one module are rejected or mis-resolved across modules)", rel, x)
